@@ -3,7 +3,7 @@
 From Coq Require Import ZArith List Bool String.
 Import ListNotations.
 From TD Require Import Spec.PySlice Spec.C02_TorchShape Model.C02_ShapeOps Proofs.C02_FrameP.
-Open Scope string_scope.
+Local Open Scope string_scope.
 Open Scope Z_scope.
 
 Definition td1 (bs : list Z) (feat : list Z) : tree := Node bs None [("a", Leaf (bs ++ feat))].
